@@ -1599,7 +1599,9 @@ Plan gen_C14(std::uint64_t seed, int tier) {
     for (int k = 0; k < rounds; ++k) {
         int pi = (int)g.r.below(np);
         history(g, h, pi, mods[pi], g.r.range(1, 3), 1);
-        if (g.r.chance(0.3)) {
+        if (g.r.chance(0.3) && !h.faults) {
+            // (with update faults the handler must be ours: the shipped one
+            // returns and the library aborts by design)
             auto& n = pool[pi];
             if (n == "dbg" || n == "rel")
                 g.ev_handler(pi, g.r.chance(0.5) ? HM_CALL_ERROR : HM_THROW);
